@@ -227,6 +227,66 @@ fn t_roundtrip_instant_std_wire_std() {
     kani::cover!(true, "C19/roundtrip/SystemTime->Instant->SystemTime/reached");
 }
 
+// ---- the four chrono conversions on the REAL chrono 0.4.40 (thorough tier only)
+// Quick tier proves these by Verus against assumed chrono contracts. Here the real chrono bodies
+// run: refutations are fast (a wrapped negative delta is found in 1.5 s) and give concrete
+// inputs; proofs through chrono's div/rem arithmetic may not finish within the thorough timeout,
+// in which case the obligation is reported undecided here and stays "modulo assumed contracts".
+#[cfg(feature = "chrono")]
+use chrono::{DateTime, TimeDelta, Utc};
+
+#[cfg(feature = "chrono")]
+#[kani::proof]
+#[kani::solver(z3)] // THOROUGH OPTIONAL
+fn t_chrono_timedelta_to_duration_real() {
+    let n: i64 = kani::any();
+    let td = TimeDelta::nanoseconds(n);
+    match Duration::try_from(td) {
+        Ok(d) => assert!(n >= 0 && d.nanos == n as u64, "C19/chrono-real/TimeDelta->Duration/exact-or-rejected"),
+        Err(_) => assert!(n < 0, "C19/chrono-real/TimeDelta->Duration/no-spurious-rejection"),
+    }
+    kani::cover!(true, "C19/chrono-real/TimeDelta->Duration/reached");
+}
+
+#[cfg(feature = "chrono")]
+#[kani::proof]
+#[kani::solver(z3)] // THOROUGH OPTIONAL
+fn t_chrono_duration_to_timedelta_real() {
+    let n: u64 = kani::any();
+    match TimeDelta::try_from(Duration { nanos: n }) {
+        Ok(td) => assert!(n <= i64::MAX as u64 && td.num_nanoseconds() == Some(n as i64), "C19/chrono-real/Duration->TimeDelta/exact-or-rejected"),
+        Err(_) => assert!(n > i64::MAX as u64, "C19/chrono-real/Duration->TimeDelta/no-spurious-rejection"),
+    }
+    kani::cover!(true, "C19/chrono-real/Duration->TimeDelta/reached");
+}
+
+#[cfg(feature = "chrono")]
+#[kani::proof]
+#[kani::solver(z3)] // THOROUGH OPTIONAL
+fn t_chrono_datetime_to_instant_real() {
+    let (s, ns): (i64, u32) = (kani::any(), kani::any());
+    let Some(dt) = DateTime::<Utc>::from_timestamp(s, ns) else {
+        return;
+    };
+    match Instant::try_from(dt) {
+        Ok(i) => assert!(s >= 0 && i.seconds == s as u64 && i.nanos == ns && i.nanos < 1_000_000_000, "C19/chrono-real/DateTime->Instant/exact-valid-or-rejected"),
+        Err(_) => assert!(s < 0 || ns >= 1_000_000_000, "C19/chrono-real/DateTime->Instant/no-spurious-rejection"),
+    }
+    kani::cover!(true, "C19/chrono-real/DateTime->Instant/reached");
+}
+
+#[cfg(feature = "chrono")]
+#[kani::proof]
+#[kani::solver(z3)] // THOROUGH OPTIONAL
+fn t_chrono_instant_to_datetime_real() {
+    let (s, ns): (u64, u32) = (kani::any(), kani::any());
+    kani::assume(ns < 1_000_000_000);
+    if let Ok(dt) = DateTime::<Utc>::try_from(Instant { seconds: s, nanos: ns }) {
+        assert!(s <= i64::MAX as u64 && dt.timestamp() == s as i64 && dt.timestamp_subsec_nanos() == ns, "C19/chrono-real/Instant->DateTime/exact-or-rejected");
+    }
+    kani::cover!(true, "C19/chrono-real/Instant->DateTime/reached");
+}
+
 // Concrete-playback tests generated by Kani for a failing run are written here by
 // /verif/bin/check (the file is empty otherwise).
 include!("/verif/work/playback/crux_time.rs");
